@@ -228,6 +228,21 @@ def batch_data_sensitivity(ctx):
                     dis += 1
                     ctx.violation("key-unstable:data-layout",
                                   f"view {lbl} ({nm}) and an equal private copy of it get different keys", {"pair": lbl})
+    # the same BYTES read in the other byte order are other values (the dtype differs in its byte order only)
+    for dtn in ("i2", "i4", "i8", "u2", "u4", "f4", "f8", "c8"):
+        nat = (np.arange(1, 7) * 3).astype("=" + dtn)
+        swp = nat.view(nat.dtype.newbyteorder("S"))
+        assert nat.tobytes() == swp.tobytes() and not np.array_equal(nat, swp)
+        for lbl, f in (("wrapper", lambda d: pt.make_data_wrapper(d)), ("stack", lambda d: pt.stack([pt.make_data_wrapper(d)] * 2)),
+                       ("slice-in-dict", lambda d: pt.make_dict_of_named_arrays({"o": pt.make_data_wrapper(d)[1:]})),
+                       ("reshape", lambda d: pt.make_data_wrapper(d).reshape(2, 3))):
+            cases += 1
+            if keyb(f(nat)) == keyb(f(swp)):
+                dis += 1
+                ctx.violation("key-not-injective:wrapped-data-byte-order",
+                              f"{lbl} of wrapped {nat.dtype.str} data and of the same bytes read as {swp.dtype.str} "
+                              f"(values {nat[:3].tolist()}… vs {swp[:3].tolist()}…) get one persistent key",
+                              {"dtype": dtn, "form": lbl})
     ctx.note_batch("wrapped-data-sensitivity", cases, dis, exhaustive=False, sizes=sizes)
 
 
